@@ -212,6 +212,67 @@ func TestC17Identifiers(t *testing.T) {
 				h.Act("appStep")
 				h.appStep("appStep")
 			},
+			// one slot is left on a level; the connection is lost and the
+			// reconnect sits inside its retransmission (holding the sequence
+			// locks) when two publishes of that level arrive: one gets the
+			// slot, the other ErrMax, neither blocks
+			"twoForTheLastSlot": func(rt *rapid.T) {
+				c := h.Current()
+				level := byte(rapid.IntRange(1, 2).Draw(rt, "level"))
+				if c == nil || !c.Accepted() || limit[level] < 2 || h.inFlight(level) != limit[level]-1 || h.WritersParkedAny() || len(h.ParkedGates()) > 0 {
+					rt.Skip("needs exactly one free slot on the level and an idle connection")
+				}
+				d := rapid.IntRange(0, 20).Draw(rt, "parkOff")
+				h.Act("twoForTheLastSlot level=%d: break conn=%d; the next connection parks at connect+%d", level, c.N, d)
+				h.WithLock(func() {
+					h.NextConnOpts = func(c *sim.Conn) {
+						c.ArmWriteLocked(sim.WFault{Off: connectLen + d, Kind: sim.WPark})
+						h.NextConnOpts = nil
+					}
+				})
+				c.Break(false)
+				h.settleInbound()
+				h.App.Step()
+				h.MustPoll("the reconnect parking inside its retransmission, or coming to rest", func() bool {
+					return h.WritersParkedAny() || h.ReaderWaiting() || !h.App.InCall()
+				})
+				h.WithLock(func() {
+					h.NextConnOpts = nil
+					if !h.WritersParkedAnyLocked() {
+						// nothing to retransmit at that offset: no lock is held; disarm
+						for _, cc := range h.Conns {
+							cc.ClearFaultsLocked()
+						}
+					}
+				})
+				if !h.WritersParkedAny() {
+					return
+				}
+				var calls []*sim.Call
+				for i := 0; i < 2; i++ {
+					calls = append(calls, h.pub(level, false))
+				}
+				h.Act("release the retransmission")
+				for _, cc := range h.AllConns() {
+					for cc.ReleaseWrite() {
+					}
+				}
+				nmax := 0
+				for _, call := range calls {
+					h.MustPoll("publish for the last slot returning (the slot or ErrMax, no blocking)", func() bool { return h.IsDone(call) })
+					if isErr(call.Err, mqtt.ErrMax) {
+						nmax++
+					} else if call.Err != nil {
+						h.Failf("publish level %d for the last slot: %v", level, call.Err)
+					}
+				}
+				if nmax != 1 {
+					h.Failf("two publishes of level %d arrived with one slot left (%d of %d in flight): %d of them got ErrMax, want exactly 1", level, limit[level]-1, limit[level], nmax)
+				}
+				h.SettleReader("connect after the release")
+				reachedLimit = true
+				h.label("two-publishes-for-the-last-slot-during-a-resend")
+			},
 			// the reconnect gets its CONNACK, then dies while the pending
 			// transfers are retransmitted; the one after is healthy
 			"resendFails": func(rt *rapid.T) {
